@@ -24,7 +24,7 @@ def judge(case):
         for f in case["files"]:
             d = os.path.join(root, *f["path"]["dirs"][1:])
             os.makedirs(d, exist_ok=True)
-            with open(os.path.join(d, f["path"]["file"]), "w") as fh:
+            with open(os.path.join(d, f["path"]["file"]), "w", encoding="utf-8") as fh:
                 fh.write(absyn.render(with_inc_strings(f["s"], root), rng))
         os.makedirs(os.path.join(root, "elsewhere"), exist_ok=True)
         main = with_inc_strings(case["s"], root)
@@ -32,7 +32,7 @@ def judge(case):
         back = absyn.tree2abs(realrun.parse_tree(text), None)
         if back != main:
             return "render", {"text": text, "reason": "rendered main script does not parse back", "back": back}
-        with open(os.path.join(root, "w", "main.xbb"), "w") as fh:
+        with open(os.path.join(root, "w", "main.xbb"), "w", encoding="utf-8") as fh:
             fh.write(text)
         res = {"text": text}
         if case["out"]["k"] == "unspec":
@@ -83,6 +83,7 @@ def run(rep, tier, seed):
     for c in cases:
         c["files"] = files
     loadcheck.replay_cases(rep, cases, seed, sections=("ops", "modes"), fingerprint=fingerprint, judge=judge, strict_cls=False)
+    random_trees(rep, tier, seed)
     rep.cov["working_directories_per_case"] = 3
     rep.cov["rule"] = ("6 main scripts (same-directory, repeated, nested, sub-directory, sibling-directory via .., absolute include paths) x up to %d items "
                        "from 16 (calls of a 3-mode subroutine on modes {1,3,8} with different mode lists, a two-parameter template with keywords in either "
@@ -91,8 +92,40 @@ def run(rep, tier, seed):
     rep.assumptions += ["callee programs without measured registers; instantiated values compared numerically"]
 
 
+def random_trees(rep, tier, seed):
+    """random include trees far beyond the menu (libraries in three directories, libraries that include and call libraries, relative / .. /
+    absolute include lines, repeated include lines, well- and ill-formed calls); TLC (Trace_Load) is oracle and trace validator"""
+    from .. import randinc, values
+    n = 120 if tier == "quick" else 1500
+    cases = randinc.build(rep, seed + 77, n, "Trace_Load (oracle + trace validation for %d random include trees)")
+    verdicts, nspec, ncalls = {}, 0, 0
+    for c in cases:
+        verdicts[c["trace"]] = verdicts.get(c["trace"], 0) + 1
+        if c["out"]["k"] != "unspec":
+            nspec += 1
+        why = progcmp.cmp_outcome(c["out"], c["real"], sections=("ops", "modes"), strict_cls=False, num_kind=False)
+        if why:
+            rep.violation("random include tree (loaded with working directory %s): %s | trace verdict %s at event %d | main script and files:\n%s"
+                          % (c["cwd"], why, c["trace"], c["at"], c["text"]), {"text": c["text"], "reason": why, "fingerprint": None})
+        elif c["trace"] not in ("accepted", "unspecified", "none"):
+            rep.notes.append("trace of a random include tree left the listener machine (%s at event %d) although the outcome agrees" % (c["trace"], c["at"]))
+    rep.cov["random_include_trees"] = len(cases)
+    rep.cov["random_include_trees_specified"] = nspec
+    rep.cov["random_include_trees_outcomes"] = {k: sum(1 for c in cases if c["out"]["k"] == k) for k in ("ok", "raise", "unspec")}
+    rep.cov["random_include_trace_verdicts"] = verdicts
+    rep.cov["traces_validated_against_impl"] += len(cases)
+    rep.cov["evaluations"] += len(cases)
+    rep.cov["distinct_nontrivial"] += nspec
+    if cases:
+        rep.sample({"random_include_tree": cases[0]["text"][:1500], "oracle_outcome": cases[0]["out"]["k"], "trace_verdict": cases[0]["trace"]})
+
+
 def replay(path):
     d = json.load(open(path))
+    if "case" not in d:
+        print(d.get("text"))
+        print("recorded:", d.get("reason"), "(random include tree: re-run the check with the same VERIF_SEED to reproduce)")
+        return 1
     st, det = judge(d["case"])
     print(det["text"])
     print(st, det.get("reason"))
